@@ -27,13 +27,38 @@
        from the location of the literal's first token and the text it collected (for 'xy'H that token is not in
        the input; its line and column are those of an input token).
      * C14_parse_total_partial (older, kept): the loop-free productions and token loops are `safe` one by one.
-   NOT proved here: totality of the resolver and of to_rust (both are refuted below); their outcome classes are
-   tied to the crate differentially on every generated input (op 3303).
+     * C14_resolve_total (Front/ResolveTotalProofs.v): for EVERY list of parsed modules, resolve_all is a list of
+       models or an error value; the result type has no panic outcome (the resolver's only partial operation,
+       usize::try_from, is an error value), and the divergence outcome (the Rust lookup recursing until the stack
+       overflows) occurs only in the class Known_C14_cyclic_import Ms: some loaded module M has a use site -- a value
+       reference at an INTEGER range bound, at a SIZE bound, or as a DEFAULT (when the ENUMERATED special case does not
+       fire), or the referenced type of a component with a DEFAULT reference -- whose lookup walks
+       "A does not define n and its first import listing n is matched by module B of the scope" into a cycle.
+       The fuel of the model, S (length scope), is EXACT (C14_import_lookup_fuel_exact): the lookup answers Diverges
+       iff the walk is cyclic (pigeonhole on the positions of the scope: `length scope` units already suffice), and a
+       cyclic walk diverges for every fuel.  A module set in the class never resolves (C14_cyclic_import_never_resolves:
+       it diverges, or an error of an earlier module / use site comes first).
+     * C14_tag_resolution_total: the TagResolver recursion of Model::to_rust (resolve_tag / resolve_type_tag of
+       Extract/OpsParse.v, fuel S (length defs) * S nodes) never panics (lookup has no such outcome) and diverges only in
+       the class Known_C14_untagged_choice_cycle defs: a cycle in the graph "UNTAGGED definition n mentions n' in tag
+       position" (n' an untagged type reference, through OPTIONAL / DEFAULT and through the untagged root alternatives
+       of a CHOICE).  Decidable: cyclic_b defs = true <-> the class (C14_cyclic_b_iff); cyclic_b defs = false ->
+       to_rust_diverges = false with the fuel of the model, and resolve_tag returns for every fuel >=
+       length defs + S (total type nodes) (C14_tag_fuel_bound).  The class is slightly WIDER than actual divergence:
+       the scan of CHOICE alternatives stops at the first alternative without a tag (e.g. a reference to an
+       undefined type), so a cycle through a later alternative is never entered
+       (C14_class_wider_than_divergence_on_short_circuit).  The class can be read off the parsed module
+       (untagged_cycle_of_parsed: resolving keeps tags, names and tag positions).
+     * C14_front_end_total: tokenizer; parser; resolver; tag resolution, for every input string: a model, a parse
+       error, a resolve error, one of the two tokenizer panics, or divergence in one of the two classes (stated on
+       the parse result); C14_op_3303_crash ties the CRASH answer of the compared op to exactly these two outcomes.
+   NOT proved here: the rest of to_rust / to_protobuf beyond tag resolution (tie only).
    Refuted: conversion to the Rust model does not return on a cycle of untagged type references / CHOICE
    alternatives (a legal recursive CHOICE suffices), the resolver does not return on cyclic IMPORTS of an
    undefined name: both are stack overflows that abort the process (`3 32`), not error values. *)
 From Coq Require Import String.
-From A1 Require Import Front.Lex Front.Parse Front.Print Front.ParseProofs Front.ParseTotalProofs Front.Resolve Extract.OpsParse.
+From A1 Require Import Front.Lex Front.Parse Front.Print Front.ParseProofs Front.ParseTotalProofs Front.Resolve Extract.OpsParse
+  Front.ResolveSubstProofs Front.ResolveTotalProofs.
 Local Open Scope Z_scope.
 
 Theorem C14_lex_total_partial : forall m s,
@@ -152,6 +177,153 @@ Proof.
   cbn [In]. intros H. repeat (destruct H as [H | H]; [discriminate H|]). exact H.
 Qed.
 
+(* ---------- the stages after the parser (Front/ResolveTotalProofs.v) ---------- *)
+
+Theorem C14_resolve_total : forall Ms : list umodel,
+  match resolve_all Ms with
+  | ROk _ | RErr _ => True
+  | RDiverge => Known_C14_cyclic_import Ms
+  end.
+Proof. exact resolve_all_total. Qed.
+
+Theorem C14_resolve_total_outside_class : forall Ms : list umodel, ~ Known_C14_cyclic_import Ms ->
+  (exists rs, resolve_all Ms = ROk rs) \/ (exists e, resolve_all Ms = RErr e).
+Proof. exact resolve_all_total'. Qed.
+
+Theorem C14_cyclic_import_never_resolves : forall Ms, Known_C14_cyclic_import Ms -> forall rs, resolve_all Ms <> ROk rs.
+Proof. exact cyclic_import_never_resolves. Qed.
+
+(* the fuel S (length scope) of the two lookups is exact: out of fuel <-> the import walk is cyclic; and a cyclic
+   walk is out of fuel for every fuel *)
+Theorem C14_import_lookup_fuel_exact : forall Ms M name,
+  (value_reference Ms (lookup_fuel Ms) M name = Diverges <-> import_cycle_v Ms M name) /\
+  (definition Ms (lookup_fuel Ms) M name = Diverges <-> import_cycle_d Ms M name) /\
+  (import_cycle_v Ms M name -> forall fuel, value_reference Ms fuel M name = Diverges) /\
+  (import_cycle_d Ms M name -> forall fuel, definition Ms fuel M name = Diverges).
+Proof.
+  intros Ms M name. split; [apply value_reference_diverges_iff|]. split; [apply definition_diverges_iff|].
+  apply import_cycle_diverges_for_every_fuel.
+Qed.
+
+Theorem C14_tag_resolution_total : forall m : amodel rasn,
+  (to_rust_diverges m = true -> Known_C14_untagged_choice_cycle N Z literal (m_definitions m)) /\
+  (cyclic_b N Z literal (m_definitions m) = false -> to_rust_diverges m = false).
+Proof. intros m. split; [apply to_rust_total | apply acyclic_to_rust_terminates]. Qed.
+
+Theorem C14_cyclic_b_iff : forall (SS RR CC : Type) (defs : list (str * asn SS RR CC)),
+  cyclic_b SS RR CC defs = true <-> Known_C14_untagged_choice_cycle SS RR CC defs.
+Proof. exact cyclic_b_iff. Qed.
+
+Theorem C14_tag_fuel_bound : forall defs : list (str * rasn), cyclic_b N Z literal defs = false ->
+  forall f n, (length defs + S (total_nodes defs) <= f)%nat -> resolve_tag defs f n <> Diverges.
+Proof. exact tag_ok. Qed.
+
+Theorem C14_front_end_total : forall (m : mode) (s : list N),
+  (forall ts u, tokenize m s = Ok ts -> parse ts = POk u ->
+     ~ Known_C14_cyclic_import [u] /\
+     ~ Known_C14_untagged_choice_cycle _ _ _ (m_definitions u)) ->
+  (exists r, front_end m s = FeModel r) \/ (exists k t, front_end m s = FeParseError k t) \/
+  (exists e, front_end m s = FeResolveError e) \/
+  (exists p, front_end m s = FeLexPanic p /\ (p = P_OTHER \/ (p = P_ARITH /\ overflow_checks m = true))).
+Proof. exact front_end_total'. Qed.
+
+Theorem C14_front_end_outcomes : forall (m : mode) (s : list N),
+  match front_end m s with
+  | FeModel _ | FeParseError _ _ | FeResolveError _ => True
+  | FeLexPanic p => p = P_OTHER \/ (p = P_ARITH /\ overflow_checks m = true)
+  | FeLexError _ | FeParsePanic _ | FeParseOutOfFuel => False
+  | FeResolveDiverges =>
+      exists ts u, tokenize m s = Ok ts /\ parse ts = POk u /\ Known_C14_cyclic_import [u]
+  | FeTagDiverges =>
+      exists ts u, tokenize m s = Ok ts /\ parse ts = POk u /\
+                   Known_C14_untagged_choice_cycle _ _ _ (m_definitions u)
+  end.
+Proof. exact front_end_total. Qed.
+
+Theorem C14_op_3303_crash : forall m flags text, forallb is_scalar text = true ->
+  (op_3303 m (flags :: text) = [3; 32] <->
+   front_end m (map Z.to_N text) = FeResolveDiverges \/ front_end m (map Z.to_N text) = FeTagDiverges).
+Proof. exact op_3303_crash. Qed.
+
+(* ---- witnesses for the two classes ---- *)
+
+Definition parsed (s : string) : option umodel :=
+  match tokenize dev_mode (s2n s) with
+  | Ok ts => match parse ts with POk u => Some u | _ => None end
+  | _ => None
+  end.
+
+(* smallest cyclic imports: a module importing an undefined name from itself; two modules importing it from each
+   other.  The model diverges and the class holds. *)
+Example C14_cyclic_import_diverges :
+  exists m0 m1 m2,
+    parsed "M DEFINITIONS ::= BEGIN IMPORTS x FROM M; A ::= INTEGER (0..x) END" = Some m0 /\
+    parsed "M DEFINITIONS ::= BEGIN IMPORTS x FROM N; A ::= INTEGER (0..x) END" = Some m1 /\
+    parsed "N DEFINITIONS ::= BEGIN IMPORTS x FROM M; B ::= BOOLEAN END" = Some m2 /\
+    resolve_all [m0] = RDiverge /\ Known_C14_cyclic_import [m0] /\
+    resolve_all [m1; m2] = RDiverge /\ Known_C14_cyclic_import [m1; m2] /\
+    front_end dev_mode (s2n "M DEFINITIONS ::= BEGIN IMPORTS x FROM M; A ::= INTEGER (0..x) END") = FeResolveDiverges.
+Proof.
+  do 3 eexists.
+  split; [vm_compute; reflexivity|]. split; [vm_compute; reflexivity|]. split; [vm_compute; reflexivity|].
+  match goal with |- ?A = RDiverge /\ _ => assert (E0 : A = RDiverge) by (vm_compute; reflexivity) end.
+  split; [exact E0|]. split; [match type of E0 with resolve_all ?l = _ => pose proof (resolve_all_total l) as H end; rewrite E0 in H; exact H|].
+  match goal with |- ?A = RDiverge /\ _ => assert (E1 : A = RDiverge) by (vm_compute; reflexivity) end.
+  split; [exact E1|]. split; [match type of E1 with resolve_all ?l = _ => pose proof (resolve_all_total l) as H end; rewrite E1 in H; exact H|].
+  vm_compute. reflexivity.
+Qed.
+
+(* smallest untagged cycles: a recursive CHOICE through an untagged alternative; two type references *)
+Example C14_untagged_choice_cycle_diverges :
+  exists u1 u2 r1 r2,
+    parsed "M DEFINITIONS ::= BEGIN Expr ::= CHOICE { lit INTEGER, neg Expr } END" = Some u1 /\
+    parsed "M DEFINITIONS ::= BEGIN A ::= B B ::= A END" = Some u2 /\
+    resolve_single u1 = ROk r1 /\ resolve_single u2 = ROk r2 /\
+    cyclic_b _ _ _ (m_definitions u1) = true /\ cyclic_b _ _ _ (m_definitions u2) = true /\
+    to_rust_diverges r1 = true /\ to_rust_diverges r2 = true /\
+    front_end dev_mode (s2n "M DEFINITIONS ::= BEGIN Expr ::= CHOICE { lit INTEGER, neg Expr } END") = FeTagDiverges /\
+    (* a tag on the way ends the recursion *)
+    (exists r, front_end dev_mode (s2n "M DEFINITIONS ::= BEGIN A ::= [1] B B ::= A END") = FeModel r).
+Proof.
+  do 4 eexists.
+  split; [vm_compute; reflexivity|]. split; [vm_compute; reflexivity|].
+  split; [vm_compute; reflexivity|]. split; [vm_compute; reflexivity|].
+  split; [vm_compute; reflexivity|]. split; [vm_compute; reflexivity|].
+  split; [vm_compute; reflexivity|]. split; [vm_compute; reflexivity|].
+  split; [vm_compute; reflexivity|]. eexists. vm_compute. reflexivity.
+Qed.
+
+(* the class is wider than actual divergence: the scan of the alternatives stops at `u Undefined` (no tag), the
+   alternative `a A` that closes the cycle is never looked at *)
+Example C14_class_wider_than_divergence_on_short_circuit :
+  exists u r,
+    parsed "M DEFINITIONS ::= BEGIN A ::= CHOICE { u Undefined, a A } END" = Some u /\
+    resolve_single u = ROk r /\ cyclic_b _ _ _ (m_definitions u) = true /\ to_rust_diverges r = false.
+Proof.
+  do 2 eexists. split; [vm_compute; reflexivity|]. split; [vm_compute; reflexivity|].
+  split; vm_compute; reflexivity.
+Qed.
+
+(* non-vacuity: a two-hop import chain (A imports x from B, B imports x from C, C defines x) resolves, in every
+   position of the scope; neither class holds *)
+Example C14_nonvacuous_two_hop_import_chain :
+  exists a b c rs,
+    parsed "A DEFINITIONS ::= BEGIN IMPORTS x FROM B; T ::= INTEGER (0..x) U ::= SEQUENCE { f T DEFAULT x } END" = Some a /\
+    parsed "B DEFINITIONS ::= BEGIN IMPORTS x FROM C; V ::= OCTET STRING (SIZE(x)) END" = Some b /\
+    parsed "C DEFINITIONS ::= BEGIN x INTEGER ::= 7 END" = Some c /\
+    resolve_all [a; b; c] = ROk rs /\
+    ~ Known_C14_cyclic_import [a; b; c] /\
+    cyclic_b _ _ _ (m_definitions a) = false /\
+    value_reference [a; b; c] (lookup_fuel [a; b; c]) a (s2n "x") = Found (LInteger 7).
+Proof.
+  do 4 eexists.
+  split; [vm_compute; reflexivity|]. split; [vm_compute; reflexivity|]. split; [vm_compute; reflexivity|].
+  match goal with |- ?A = ROk ?r /\ _ => assert (E : A = ROk r) by (vm_compute; reflexivity) end.
+  split; [exact E|].
+  split; [intros Hk; exact (cyclic_import_never_resolves _ Hk _ E)|].
+  split; vm_compute; reflexivity.
+Qed.
+
 Definition txt (s : string) : list Z := map Z.of_N (s2n s).
 
 (* a legal recursive CHOICE: tokenizer, parser and resolver succeed, Model::to_rust does not return *)
@@ -182,6 +354,20 @@ Print Assumptions C14_parse_total.
 Print Assumptions C14_parse_total_default_fuel.
 Print Assumptions C14_error_carries_token.
 Print Assumptions C14_lex_parse_total.
+Print Assumptions C14_resolve_total.
+Print Assumptions C14_resolve_total_outside_class.
+Print Assumptions C14_cyclic_import_never_resolves.
+Print Assumptions C14_import_lookup_fuel_exact.
+Print Assumptions C14_tag_resolution_total.
+Print Assumptions C14_cyclic_b_iff.
+Print Assumptions C14_tag_fuel_bound.
+Print Assumptions C14_front_end_total.
+Print Assumptions C14_front_end_outcomes.
+Print Assumptions C14_op_3303_crash.
+Print Assumptions C14_cyclic_import_diverges.
+Print Assumptions C14_untagged_choice_cycle_diverges.
+Print Assumptions C14_class_wider_than_divergence_on_short_circuit.
+Print Assumptions C14_nonvacuous_two_hop_import_chain.
 Print Assumptions C14_literal_panics_unreachable.
 Print Assumptions C14_fuel_length_plus_1_insufficient.
 Print Assumptions C14_invalid_literal_token_is_synthesised.
